@@ -44,6 +44,25 @@ pub struct Case {
     pub source: String,
     pub labels: Vec<String>,
     pub weights: Vec<f64>,
+    /// patterns ADDED to the voice's GV-off contexts (a perturbed copy may switch GV off in more
+    /// contexts than silence and pause: here the phonemes next to a pause)
+    #[serde(default)]
+    pub extra_gv_off: Vec<String>,
+}
+
+/// The voice's GV-off patterns for this case (file order, then the added ones).
+fn gv_off_patterns(c: &Case) -> Vec<String> {
+    let mut v = bundled_file_voice().gv_off_context.clone();
+    v.extend(c.extra_gv_off.iter().cloned());
+    v
+}
+
+fn with_gv_off(v: std::sync::Arc<jbonsai::model::Voice>, patterns: &[String]) -> Result<std::sync::Arc<jbonsai::model::Voice>, Failure> {
+    let refs: Vec<&str> = patterns.iter().map(|s| s.as_str()).collect();
+    let q = jbonsai::model::voice::question::Question::parse(&refs).map_err(|e| Failure::new("harness-gv-off-context", format!("{:?}", e)))?;
+    let mut voice = (*v).clone();
+    voice.metadata.gv_off_context = q;
+    Ok(std::sync::Arc::new(voice))
 }
 
 fn gv_partner_voice(f: f64) -> Result<std::sync::Arc<jbonsai::model::Voice>, Failure> {
@@ -62,12 +81,23 @@ fn gv_partner_voice(f: f64) -> Result<std::sync::Arc<jbonsai::model::Voice>, Fai
 }
 
 fn c12_engine(c: &Case) -> Result<jbonsai::Engine, Failure> {
-    let Some((f, wp, wg)) = &c.gv_partner else { return Ok(build_engine(&c.voice)?.0) };
-    let first = match &c.voice {
+    if c.gv_partner.is_none() && c.extra_gv_off.is_empty() {
+        return Ok(build_engine(&c.voice)?.0);
+    }
+    let mut first = match &c.voice {
         VoiceChoice::Perturbed(k) => crate::engine_case::perturbed_voice(*k)?,
         _ => crate::engine_case::bundled_voice_arc()?,
     };
-    let mut e = crate::engine_case::engine_from_voices(vec![first, gv_partner_voice(*f)?])?;
+    let patterns = gv_off_patterns(c);
+    if !c.extra_gv_off.is_empty() {
+        first = with_gv_off(first, &patterns)?;
+    }
+    let Some((f, wp, wg)) = &c.gv_partner else { return crate::engine_case::engine_from_voices(vec![first]) };
+    let mut partner = gv_partner_voice(*f)?;
+    if !c.extra_gv_off.is_empty() {
+        partner = with_gv_off(partner, &patterns)?;
+    }
+    let mut e = crate::engine_case::engine_from_voices(vec![first, partner])?;
     let iw = e.condition.get_interporation_weight_mut();
     let bad = |e: jbonsai::model::interporation_weight::WeightError| Failure::new("valid-weights-rejected", e.to_string());
     iw.set_duration(wp).map_err(bad)?;
@@ -100,7 +130,7 @@ impl Prop for GlobalVariance {
         "gv-variance".into()
     }
     fn rule(&self) -> String {
-        "bundled voice or one of its PDF-perturbed copies - in 30 % of the cases combined with a copy whose GV means are scaled by 0.5..3, using different parameter and GV interpolation weights -; 10..60 corpus labels (consecutive window or shuffled lines); three sorted GV weights in [0.25,2], the spectrum taking them in ascending and log-F0 in descending order (each stream its own weight); variance of every coefficient over the eligible frames vs weight x GV mean, monotone in the weight; the low-pass stream (no GV) bitwise unaffected by its GV weight. Non-trivial: >= 100 eligible frames in both streams".into()
+        "bundled voice or one of its PDF-perturbed copies - in 30 % of the cases combined with a copy whose GV means are scaled by 0.5..3, using different parameter and GV interpolation weights -; in 25 % with GV additionally switched off next to pauses (patterns on the neighbouring phoneme added to the voice's GV-off contexts) -; 10..60 corpus labels (consecutive window or shuffled lines); three sorted GV weights in [0.25,2], the spectrum taking them in ascending and log-F0 in descending order (each stream its own weight); variance of every coefficient over the eligible frames vs weight x GV mean, monotone in the weight; the low-pass stream (no GV) bitwise unaffected by its GV weight. Non-trivial: >= 100 eligible frames in both streams".into()
     }
     fn tape_len(&self, _: Tier) -> usize {
         80
@@ -133,7 +163,18 @@ impl Prop for GlobalVariance {
         } else {
             None
         };
-        Case { voice, gv_partner, source: source.into(), labels, weights }
+        // a quarter of the cases: GV is also off for the phonemes next to a pause / silence (contexts
+        // that depend on a NEIGHBOUR, so the same phoneme is eligible in one label and not in another)
+        let extra_gv_off: Vec<String> = if t.chance(0.25) {
+            let pool = ["*+pau=*", "*+sil=*", "*^pau-*", "*^sil-*"];
+            let k = t.urange(1, 2);
+            let mut v: Vec<String> = (0..k).map(|_| t.pick(&pool).to_string()).collect();
+            v.dedup();
+            v
+        } else {
+            vec![]
+        };
+        Case { voice, gv_partner, source: source.into(), labels, weights, extra_gv_off }
     }
     fn check(&self, c: &Case) -> Result<Report, Failure> {
         let engine = c12_engine(c)?;
@@ -142,7 +183,7 @@ impl Prop for GlobalVariance {
             Ok(l) => l,
             Err(e) => fail!("label-parse", "{}", e),
         };
-        let gv_off = &bundled_file_voice().gv_off_context;
+        let gv_off = &gv_off_patterns(c);
         let (durations, nstate, _) = expected_durations(&engine, &c.labels, false)?;
         // per frame: label eligible?
         let mut frame_label_ok = Vec::new();
@@ -239,6 +280,7 @@ impl Prop for GlobalVariance {
         rep.nontrivial = eligible_counts.0 >= 100 && eligible_counts.1 >= 100;
         rep.class(c.voice.class());
         rep.class_if(c.gv_partner.is_some(), "voice-set-with-different-gv");
+        rep.class_if(!c.extra_gv_off.is_empty(), "gv-off-next-to-pauses");
         rep.class(format!("source:{}", c.source));
         rep.class_if(eligible_counts.0 >= 100, "spectrum>=100-eligible");
         rep.class_if(eligible_counts.1 >= 100, "lf0>=100-eligible");
